@@ -23,8 +23,19 @@ ASSUMPTIONS = [
 ]
 
 
+FORMS = ["bytes", "bytearray", "list", "tuple", "memoryview", "iter", "generator", "reversed-twice"]
+
+
+def as_form(data, form):
+    return {"bytes": lambda: bytes(data), "bytearray": lambda: bytearray(data), "list": lambda: list(data), "tuple": lambda: tuple(data),
+            "memoryview": lambda: memoryview(bytes(data)), "iter": lambda: iter(bytes(data)), "generator": lambda: (b for b in bytes(data)),
+            "reversed-twice": lambda: reversed(bytes(data)[::-1])}[form]()
+
+
 def cases(ctx):
     cs = [("default2",)]
+    # the byte sequence in every iterable form (the function only iterates it): sequences, views and one-shot iterators
+    cs += [("forms", i) for i in range(12)]
     cs += [("step", hi) for hi in range(256)]
     comp_starts = [0xFFFF, 0x0000, 0x0001, 0x8408, 0x00FF, 0xFF00]
     n = 16 if ctx.quick else 256
@@ -43,6 +54,25 @@ def run_case(ctx, case):
     kind = case[0]
     o = Outcome("agree", True, extra={})
     n = 0
+    if kind == "forms":
+        i = case[1]
+        data = [b"\x00", b"\xff", b"123456789", bytes(range(256)), bytes(26)][i] if i < 5 else ctx.sym("c15-form-%d" % i, 3 + 7 * i)
+        for start in (0xFFFF, 0x0000, ctx.symint("c15-form-start-%d" % i, 1 << 16)):
+            want = crc16(data, start)
+            for form in FORMS:
+                n += 1
+                try:
+                    got = crc8404B(as_form(data, form), start)
+                except Exception as e:
+                    o.viol("forms|raises|%s" % form, "crc8404B(<%s of %d bytes>, start=%04X) raised %r" % (form, len(data), start, e))
+                    o.cls = "mismatch"
+                    return o
+                if got != want:
+                    o.viol("forms|mismatch|%s" % form, "crc8404B(<%s of %d bytes>, start=%04X) = %r, reference %04X" % (form, len(data), start, got, want))
+                    o.cls = "mismatch"
+                    return o
+        o.extra["transitions"] = n
+        return o
     if kind == "step":
         hi = case[1]
         for s in range(hi << 8, (hi << 8) + 256):
